@@ -93,3 +93,11 @@ META["C07"] = dict(
     level_text="Exploration with an exhaustive model layer: the stated admission/acknowledgement rules are explored over every window 1..16 (40 in thorough), every size sequence over the relative alphabet and every interleaving, checking the outstanding-bytes bound and absence of stuck states; the implementation is then held to the model frame by frame: which Send is admitted or blocks, after which scripted update it is released, that closing payloads ignore the window, that cancel/peer-close release a blocked Send, and (through a FIFO fence on a second channel) exactly when and with what delta the receiver acknowledges.",
     level_note="The model is written from the property statement; conformance uses a 60 ms observation for 'must block' (miss-only direction) and a 10 s bound for 'must happen'. Real-concurrency wake-up races are sampled by the end-to-end layer, not enumerated.",
 )
+
+META["C06"] = dict(
+    engine="net",
+    design_ref="DESIGN.md 3/C06",
+    technique="property-based testing with generated multi-channel histories on a real connection: witness channels with complete-delivery oracles run while many victim channels are ended in generated ways with traffic in flight; plus scripted stale-frame sequences from a wire-level peer",
+    level_text="Exploration: per case 2..4 witness channels carry verified traffic while 8..120 victim channels are ended by Free, SendAndClose, handler return, handler error or handler panic at drawn points while their peer is still sending; the connection must stay open and usable, witnesses complete and uncorrupted, and the log free of library panics and connection-level errors. A wire-level peer additionally sends data/window/close frames (single and batched, extreme deltas) for ended and unknown channel ids to a real server and a real client, after which a fresh channel must still work.",
+    level_note="Race windows are hit statistically (the lookup/acquire race this property is about reproduces within seconds when the repair is reverted); no schedule enumeration.",
+)
